@@ -229,7 +229,59 @@ def run(ctx):
     ctx.check(i2, len(wr) == 2, key(fp, "writes"), fp.where(fp.root), "expected the first-frame and the loop write")
     rets = [fp.canon(fp.ch(r)[0], subst=False) for r in fp.find("Return")]
     ctx.check(i2, "outidx" in rets, key(fp, "return"), fp.where(fp.root), "the number of frames written is not returned")
-    lp = [l for l in fp.find("For")]
-    ctx.check(i2, len(lp) == 1 and fp.canon(fp.ch(lp[0])[0], subst=False) == "i = 1" and paths.rel(fp, fp.ch(lp[0])[1], True, subst=False) == ("i", "<", "frame_count"), key(fp, "loop"), fp.where(fp.root), "remaining frames do not range over 1 .. frame_count-1")
+    # ---- F5 byte-swap targets --------------------------------------------------------------------------
+    f5 = ctx.rule("PROV.F5-swap-target", "a float32 sample is byte-swapped in place through a byte view of that very sample: the byte pointer is a cast of the complete element address (pointer arithmetic done in float32 units, not in bytes), and for a buffer element it is the element just stored", floor=8)
+    for g in list(fi.values()) + [x for x in P.functions(SG) if x.file.endswith(SG)]:
+        for v in g.find("Var"):
+            nd = g.nodes[v]
+            if "*" not in nd.get("ct", nd.get("t", "")) or "char" not in nd.get("ct", "") or not g.ch(v):
+                continue
+            ini = g.strip(g.ch(v)[0], casts=False)
+            uses = [u for u in g.find("Subscript") if g.k(g.strip(g.ch(u)[0])) == "DeclRef" and g.nodes[g.strip(g.ch(u)[0])].get("decl") == nd["decl"]]
+            if len([u for u in uses if g.k(g.up(u)) == "Assign" and g.strip(g.ch(g.up(u))[0]) == u]) < 2:
+                continue        # not a byte-exchange view
+            ctx.touch(g)
+            inner = g.ch(ini)[0] if g.k(ini) == "Cast" else None
+            it = g.nodes[g.strip(inner, casts=False)].get("ct", g.nodes[g.strip(inner, casts=False)].get("t", "")) if inner is not None else ""
+            okc = inner is not None and "float" in it and "*" in it
+            ctx.check(f5, okc, key(g, "view@%d" % g.line(v)), g.where(v), "the byte view `%s` is not a cast of a float32 element address: the offset is added in bytes, so other bytes than the sample's are exchanged" % g.canon(g.ch(v)[0], subst=False, casts=True))
+            if okc:
+                # the element stored just before, in the same block
+                b, idx = paths.pos_of(g, v)
+                prev = [s_ for s_ in paths.stores(g) if s_["kind"] == "Subscript" and s_["op"] == "=" and "float" in g.nodes[s_["lhs"]].get("ct", g.nodes[s_["lhs"]].get("t", "")) and paths.always_before(g, v, lambda e, n_=s_["node"]: e == n_)]
+                ij = g.strip(inner)
+                if prev and not (g.k(ij) == "Un" and g.nodes[ij]["op"] == "&" and g.k(g.strip(g.ch(ij)[0])) == "DeclRef"):
+                    last = max(prev, key=lambda s_: g.line(s_["node"]))
+                    lb, li = g.nodes[last["lhs"]]["ch"]
+                    want = lin.p_add(lin.poly(g, lb, subst=False), lin.poly(g, li, subst=False))
+                    ctx.check(f5, lin.poly(g, inner, subst=False) == want, key(g, "element@%d" % g.line(v)), g.where(v), "the sample swapped is at `%s`, the one just stored is `%s`" % (g.canon(inner, subst=False), g.canon(last["lhs"], subst=False)))
+
+    # the loop writes the frames after the first: its counter equals the number of frames already written
+    # when the loop is reached (one), runs below frame_count and moves once per frame written
+    from .. import symx
+    lp = [l for l in fp.find("For") + fp.find("While") if fp.calls("fe_write_frame", root=l)]
+    okl, whyl = len(lp) == 1, "expected one loop writing the remaining frames"
+    if okl:
+        cond = fp.ch(lp[0])[1] if fp.k(lp[0]) == "For" else fp.ch(lp[0])[0]
+        r = paths.rel(fp, cond, True, subst=False)
+        if not r or r[1] != "<" or r[2] != "frame_count":
+            okl, whyl = False, "the loop does not run while its counter is below frame_count (%s)" % (r,)
+        else:
+            X = r[0]
+            hdr = [b for b, blk in fp.cfg.blocks.items() if blk.get("term") == lp[0] and blk.get("cond") is not None]
+            reach = [pt for pt in symx.run_paths(fp, P, stops={hdr[0]: "loop"}) if pt.end == "loop"] if len(hdr) == 1 else []
+            if not reach:
+                okl, whyl = False, "loop not reached"
+            for pt in reach:
+                nw = len([c_ for c_ in pt.calls if c_[0] == "fe_write_frame"])
+                if pt.get(X) != lin.p_const(nw) or nw != 1:
+                    okl, whyl = False, "the loop is entered with counter %s after %d frame(s) were written" % (lin.p_str(pt.get(X)), nw)
+            for pt in symx.loop_paths(fp, lp[0], P):
+                if pt.end != "next":
+                    continue
+                nw = len([c_ for c_ in pt.calls if c_[0] == "fe_write_frame"])
+                if nw != 1 or pt.get(X) != lin.p_add(lin.p_atom(X), lin.p_const(1)):
+                    okl, whyl = False, "an iteration writes %d frame(s) and leaves the counter at %s" % (nw, lin.p_str(pt.get(X)))
+    ctx.check(i2, okl, key(fp, "loop"), fp.where(fp.root), whyl)
     few = [r for r in fp.find("Return") if "overflow_append(" in fp.canon(fp.ch(r)[0], subst=False)]
     ctx.check(i2, len(few) == 1 and paths.guarded(fp, few[0], lambda fn, cc, pol: paths.rel(fn, cc, pol, subst=False) == ("(*inout_nsamps + %s)" % NUM, "<", "fe->frame_size")), key(fp, "short-input"), fp.where(fp.root), "input shorter than one window is not just appended to the carry-over")
